@@ -60,7 +60,7 @@ def channel(case):
         return "auth"
     if op in ("legacy", "legacyw", "legacynf"):
         return "ctrl"
-    if op in ("prov", "provhttp", "provnc"):
+    if op in ("prov", "provhttp", "provnc", "fednew"):
         return "fed"
     return "ks"
 
@@ -357,6 +357,12 @@ def generate(rng, tier):
         toks = [_token(rng, remote, home, weird=False) for _ in range(rng.choice([0, 1, 1, 2, 3]))]
         spec = ";".join(f"{hxc(t)}:{_lookup(rng, t, remote, home)}" for t in toks) or "-"
         cases.append(f"provhttp {hx(remote)} {spec}")
+    for _ in range(40 * scale):
+        # the provider as wired by federation.New (real local backend, unreachable)
+        remote = _cluster(rng)
+        toks = [_token(rng, remote, home, weird=False) for _ in range(rng.choice([1, 1, 2, 3]))]
+        toks = [t if rng.random() < 0.1 or _classify(t)[0] != "legacy" else _v2(rng, remote, home, weird=False) for t in toks]
+        cases.append(f"fednew {hx(remote)} " + ";".join(f"{hxc(t)}:x" for t in toks))
     cases.append(f"provnc {hx(_cluster(rng))}")
     for _ in range(150 * scale):
         remote = _remote(rng)
@@ -487,7 +493,7 @@ def compare(case, impl, model):
         if unhxlist(iv["VIA"]) != unhxlist(mv["VIA"]):
             return False
         return unhx(iv["U"]) == "https://remote.example/arvados/v1/workflows/zrmte-7fd4e-000000000000000" and iv["M"] == f[2]
-    if op == "provhttp":
+    if op in ("provhttp", "fednew"):
         if not model.startswith("ok "):
             return impl == model
         mh, mv = _kv(model)
@@ -633,11 +639,11 @@ def _oracle_prov(case, impl):
     table = {}
     for s in specs:
         table.setdefault(unhx(s[0]), _parse_lookup(s[1]))
-    if impl.startswith(("panic", "unexpected", "error-after-request", "bad-op")):
+    if impl.startswith(("panic", "unexpected", "error-after-request", "bad-op", "own-cluster", "non-proxy", "no-rpc-conn")):
         return "driver could not observe the provider: " + impl[:200]
     if not impl.startswith("ok"):
         return None     # nothing is forwarded
-    if f[0] == "provhttp":
+    if f[0] in ("provhttp", "fednew"):
         _, iv = _kv(impl)
         auths = unhxlist(iv["auth"])
         dump = unhx(iv["X"])
@@ -790,7 +796,7 @@ def oracle(case, impl):
             if second not in (first, "err salted"):
                 return "salting a salted token produced a new token: " + second
         return None
-    if op in ("prov", "provhttp"):
+    if op in ("prov", "provhttp", "fednew"):
         return _oracle_prov(case, impl)
     if op == "provnc":
         return None if impl.startswith("err") else "tokens were provided without credentials"
@@ -891,7 +897,7 @@ def nontrivial_key(case, impl):
         return case if f[2] != "-" else None
     if op in ("keepseq", "keepgetseq"):
         return case
-    if op in ("prov", "provhttp"):
+    if op in ("prov", "provhttp", "fednew"):
         return case if f[2] != "-" else None
     if op in ("legacy", "legacyw", "legacynf"):
         return case if _placed_tokens(f[3:8]) else None
@@ -940,7 +946,7 @@ def describe(cases, impl):
             reuse = any(a[1] == b[1] and a[0] != b[0] for i, a in enumerate(sts) for b in sts[i + 1:])
             key = "sequences_same_token_other_remote" if reuse else "sequences_other"
             seqs[key] = seqs.get(key, 0) + 1
-        elif f[0] in ("prov", "provhttp") and f[2] != "-":
+        elif f[0] in ("prov", "provhttp", "fednew") and f[2] != "-":
             for s in f[2].split(";"):
                 k = tokkind(unhx(s.split(":")[0]))
                 kinds[k] = kinds.get(k, 0) + 1
